@@ -648,7 +648,7 @@ func TestProp(t *testing.T) {
 	t.Run("cursor", func(t *testing.T) { core.Run(t, cursorProof) })
 }
 
-func TestReplay(t *testing.T) { core.Replay(t, dictProof, cursorProof, partialProof, merkleProof, replaceProof, inlineProof) }
+func TestReplay(t *testing.T) { core.Replay(t, dictProof, cursorProof, partialProof, merkleProof, replaceProof, inlineProof, valuesProof, deepProof) }
 
 func keys(m map[string]bool) []string {
 	var out []string
